@@ -86,6 +86,35 @@ Proof.
   destruct (call_step_history_free _ c I3) as [C _]. now rewrite C, A.
 Qed.
 
+(** ** Short paths: a call answered through an early return leaves nothing behind.
+    Every call of the family except Factorial and the Factorial branch (n <= 170, 0 <= k <= n) of Binomial_Coefficient leaves the
+    state of the process exactly as it found it - in particular Binomial_Coefficient(n,k) with k > n (answered 0), with n > 170
+    (GammaLn branch) or with a negative argument, and the inverses whatever path they take. *)
+Lemma call_leaves_no_trace tbl (c : call) :
+  match c with
+  | CFact _ => True
+  | CBinom n k => (k < 0 \/ n < 0 \/ n < k \/ 170 < n)%Z -> fst (call_step ROps tbl c) = tbl
+  | _ => fst (call_step ROps tbl c) = tbl
+  end.
+Proof.
+  destruct c; cbn [call_step fst]; try reflexivity; try exact I.
+  intros H. unfold binomial_step.
+  destruct ((k <? 0)%Z || (n <? 0)%Z) eqn:E1; [reflexivity|].
+  apply orb_false_iff in E1. destruct E1 as [E1 E2]. apply Z.ltb_ge in E1, E2.
+  destruct (n <? k)%Z eqn:E3; [reflexivity|]. apply Z.ltb_ge in E3.
+  destruct (n >? 170)%Z eqn:E4; [reflexivity|].
+  rewrite Z.gtb_ltb in E4. apply Z.ltb_ge in E4. lia.
+Qed.
+
+(** Inv_GammaP's Halley loop: an iterate x <= 0 at the loop's test (the initial guess (p/t)^(1/a) underflows for small a) is
+    answered 0 on the spot, whatever the other locals hold. *)
+Lemma halley_nonpos_returns_zero (p a gln a1 lna1 afac x : R) (n : nat) : (x <= 0)%R ->
+  halley ROps p a gln a1 lna1 afac (S n) x = Ok 0%R.
+Proof.
+  intros H. cbn [halley]. replace (nleb ROps x (n0 ROps)) with true; [reflexivity|].
+  symmetry. apply Rleb_true. exact H.
+Qed.
+
 Example call_history_example :
   map fst (snd (call_run ZOps (fact_init ZOps) [CFact 5; CFact 3; CFact 6; CFact 5]%Z)) = [Ok 120; Ok 6; Ok 720; Ok 120]%Z.
 Proof. vm_compute. reflexivity. Qed.
